@@ -5,7 +5,7 @@ from __future__ import annotations
 import ast
 
 from ..facts import calls_in
-from ..index import FuncInfo, dotted_of, norm, own_nodes
+from ..index import FuncInfo, dotted_of, norm, own_nodes, short
 
 PROPERTY = "C16"
 RULES = {
@@ -161,19 +161,53 @@ def rule_r2_r3_r4(ctx):
               "unlike Python/SymPy where -N**2 == -(N**2)",
               how="tier of the unary '-' handler vs tier of the '**' handler",
               symbol=fu.key, construct="unary '-' tier above '**' tier")
+    # the '-' branch of the unary handler returns the negation of what the same (or a looser) tier parses next: the
+    # sign applies to the whole following unary expression, never to a token or to a tighter-binding piece of it
+    tier_idx = {g.name: i for i, (g, _, _) in enumerate(chain)}
+    minus_ifs = [n for n in own_nodes(fu.node) if isinstance(n, ast.If) and any(
+        isinstance(c, ast.Compare) and any(isinstance(k, ast.Constant) and k.value == "-" for k in c.comparators) for c in ast.walk(n.test))]
+    ok = bool(minus_ifs)
+    badret = None
+    for iff in minus_ifs:
+        for r in (x for st in iff.body for x in ast.walk(st) if isinstance(x, ast.Return)):
+            v = r.value
+            neg = isinstance(v, ast.UnaryOp) and isinstance(v.op, ast.USub)
+            operand = v.operand if neg else None
+            calls_ok = operand is not None and any(
+                isinstance(c, ast.Call) and isinstance(c.func, ast.Attribute) and norm(c.func.value) == "self"
+                and tier_idx.get(c.func.attr, 99) <= tier_idx.get(fu.name, -1) for c in ast.walk(operand))
+            if not (neg and calls_ok):
+                ok = False
+                badret = badret or r
+    ctx.check("R2", "unary minus negates the result of parsing the following unary expression", ok, fu, badret if badret is not None else fu.node,
+              f"on the branch that consumed '-', `{norm(badret) if badret is not None else ''}` does not return the negation of a parse at the "
+              "unary tier: the sign is attached to a token or to a tighter-binding sub-expression, so '-2**n' means (-2)**n",
+              how="returns inside the '-' branch are `-self.<handler of the same or a looser tier>()`", construct="'-' branch return is not a negated unary parse")
     # R3
     for op in ("+", "*"):
         f = level[op][1]
         loops = [n for n in own_nodes(f.node) if isinstance(n, ast.While)]
         ok = bool(loops)
         if ok:
-            assigns = [n for n in ast.walk(loops[0]) if isinstance(n, ast.Assign) and norm(n.targets[0]) == "left"]
-            ok = bool(assigns) and all(
-                norm(a.value).startswith(("left ", "sympy.floor(left ", "sympy.Mod(left,")) for a in assigns
-            )
+            # the accumulator is the local this handler returns; inside the loop it is only ever replaced by an
+            # expression whose leftmost operand is the accumulator itself
+            rets = [r for r in own_nodes(f.node) if isinstance(r, ast.Return) and isinstance(r.value, ast.Name)]
+            acc = rets[-1].value.id if rets else None
+
+            def left_is_acc(v):
+                if isinstance(v, ast.BinOp):
+                    return isinstance(v.left, ast.Name) and v.left.id == acc
+                if isinstance(v, ast.Call) and v.args:
+                    a0 = v.args[0]
+                    return (isinstance(a0, ast.Name) and a0.id == acc) or left_is_acc(a0)
+                return False
+
+            assigns = [n for n in ast.walk(loops[0]) if isinstance(n, ast.Assign) and isinstance(n.targets[0], ast.Name) and n.targets[0].id == acc]
+            ok = acc is not None and bool(assigns) and all(left_is_acc(a.value) for a in assigns)
             # the right operand is parsed once per iteration by the next tier, never by this tier itself
-            rights = [n for n in ast.walk(loops[0]) if isinstance(n, ast.Assign) and norm(n.targets[0]) == "right"]
-            ok = ok and len(rights) == 1 and f.name not in norm(rights[0].value)
+            rights = [n for n in ast.walk(loops[0]) if isinstance(n, ast.Assign) and isinstance(n.value, ast.Call) and isinstance(n.value.func, ast.Attribute)
+                      and norm(n.value.func.value) == "self" and n.value.func.attr.startswith("_parse_")]
+            ok = ok and len(rights) == 1 and rights[0].value.func.attr != f.name
         ctx.check("R3", f"{f.name}: left-associative fold", ok, f, f.node,
                   "binary operators of this tier are not folded left-to-right in a loop",
                   how="while loop assigning `left = left <op> right` in every branch")
@@ -212,17 +246,44 @@ def rule_r2_r3_r4(ctx):
     tok = ctx.repo.cls(f"{SYM}:_ExpressionTokenizer").methods.get("get_token")
     ctx.require(tok is not None, "tokenizer get_token not found")
     emitted = set()
+    def returns_op(stmts) -> bool:
+        for s_ in stmts:
+            for r in ast.walk(s_):
+                if isinstance(r, ast.Return) and isinstance(r.value, ast.Tuple) and r.value.elts and isinstance(r.value.elts[0], ast.Constant) \
+                        and r.value.elts[0].value == "OP":
+                    return True
+        return False
+
     for n in own_nodes(tok.node):
+        # `<something> in <literal collection / string>` guarding a branch that returns an ("OP", …) token
         if isinstance(n, ast.Compare) and len(n.ops) == 1 and isinstance(n.ops[0], ast.In):
+            par = getattr(n, "_parent", None)
+            while par is not None and not isinstance(par, ast.If):
+                par = getattr(par, "_parent", None) if isinstance(par, (ast.BoolOp, ast.UnaryOp)) else None
+            if not (isinstance(par, ast.If) and returns_op(par.body)):
+                continue
             c = n.comparators[0]
-            if norm(n.left) == "two_char" and isinstance(c, (ast.Tuple, ast.Set, ast.List)):
-                emitted |= {e.value for e in c.elts if isinstance(e, ast.Constant)}
-            if norm(n.left) == "char" and isinstance(c, ast.Constant) and isinstance(c.value, str) and len(c.value) > 1:
-                # only the branch that returns an OP token
-                par = getattr(n, "_parent", None)
-                if isinstance(par, ast.If) and any("'OP'" in norm(s) for s in par.body):
-                    emitted |= set(c.value)
+            if isinstance(c, (ast.Tuple, ast.Set, ast.List)):
+                emitted |= {e.value for e in c.elts if isinstance(e, ast.Constant) and isinstance(e.value, str)}
+            elif isinstance(c, ast.Constant) and isinstance(c.value, str):
+                emitted |= set(c.value)
     ctx.require(len(emitted) >= 5, "tokenizer operator set not recognised")
+    # the token stream is read-only for the grammar: the parser's current token is only ever replaced by the next
+    # token of the tokenizer (no handler rewrites a token)
+    pc = _parser(ctx)
+    for g in pc.methods.values():
+        for n in own_nodes(g.node):
+            if isinstance(n, (ast.Assign, ast.AugAssign, ast.AnnAssign)):
+                for t in n.targets if isinstance(n, ast.Assign) else [n.target]:
+                    if isinstance(t, ast.Attribute) and t.attr == "current_token" and norm(t.value) == "self":
+                        v = getattr(n, "value", None)
+                        from_tok = v is None or isinstance(v, ast.Constant) or any(
+                            isinstance(c, ast.Call) and isinstance(c.func, ast.Attribute) and c.func.attr == "get_token" for c in ast.walk(v))
+                        ctx.check("R4", f"{g.name}: current_token is replaced only by the tokenizer's next token", from_tok, g, n,
+                                  f"`{norm(n)}` rewrites the current token inside the parser: what is parsed is no longer the token sequence of the "
+                                  "text (e.g. a sign folded into a number literal changes how the following '**' binds)",
+                                  how="stores to self.current_token take their value from tokenizer.get_token()", construct=f"token rewritten: {short(norm(n))}")
+
     consumed = set()
     for f, ops, _ in chain:
         consumed |= ops
@@ -288,18 +349,40 @@ def rule_r5(ctx):
         if not loops or not ops:
             continue
         remaining = set(ops)
+        # roles by data flow: accumulator = the returned local, right operand = the local bound to the next tier's
+        # result inside the loop, token = the local bound to self.current_token[1]
+        rets = [r for r in own_nodes(f.node) if isinstance(r, ast.Return) and isinstance(r.value, ast.Name)]
+        acc = rets[-1].value.id if rets else None
+        rnames = [n.targets[0].id for n in ast.walk(loops[0]) if isinstance(n, ast.Assign) and isinstance(n.targets[0], ast.Name) and isinstance(n.value, ast.Call)
+                  and isinstance(n.value.func, ast.Attribute) and norm(n.value.func.value) == "self" and n.value.func.attr.startswith("_parse_")]
+        toks = {n.targets[0].id for n in ast.walk(loops[0]) if isinstance(n, ast.Assign) and isinstance(n.targets[0], ast.Name)
+                and norm(n.value).startswith("self.current_token[")}
+        role = {acc: "left"}
+        if rnames:
+            role[rnames[0]] = "right"
+
+        def form(e):
+            touched = [(x, x.id) for x in ast.walk(e) if isinstance(x, ast.Name) and x.id in role]
+            try:
+                for x, old_ in touched:
+                    x.id = role[old_]
+                return norm(e)
+            finally:
+                for x, old_ in touched:
+                    x.id = old_
+
         for iff in (n for n in ast.walk(loops[0]) if isinstance(n, ast.If)):
             t = iff.test
-            if not (isinstance(t, ast.Compare) and norm(t.left) == "op" and isinstance(t.comparators[0], ast.Constant)):
+            if not (isinstance(t, ast.Compare) and isinstance(t.left, ast.Name) and t.left.id in toks and isinstance(t.comparators[0], ast.Constant)):
                 continue
             tok = t.comparators[0].value
-            got = [norm(s.value) for s in iff.body if isinstance(s, ast.Assign)]
+            got = [form(s.value) for s in iff.body if isinstance(s, ast.Assign)]
             remaining.discard(tok)
             ctx.check("R5", f"parser {tok!r} → {want.get(tok)}", got == [want.get(tok)], f, iff,
                       f"token {tok!r} builds {got} instead of {want.get(tok)!r}",
                       how="branch body compared with the operator's SymPy form", construct=f"token {tok} builds {got}")
             if iff.orelse and not isinstance(iff.orelse[0], ast.If):
-                got = [norm(s.value) for s in iff.orelse if isinstance(s, ast.Assign)]
+                got = [form(s.value) for s in iff.orelse if isinstance(s, ast.Assign)]
                 ctx.check("R5", f"parser else-branch ({sorted(remaining)}) → SymPy form",
                           len(remaining) == 1 and got == [want.get(next(iter(remaining)))], f, iff,
                           f"the remaining token(s) {sorted(remaining)} build {got}",
